@@ -91,6 +91,15 @@ def check_case(p, ctx):
             ctx.skip("jumped junction was still captured (not the untracked class)")
             return
         ctx.count("class:untracked-junction")
+    # velocities are only specified relative to the tracked partner: the correspondence itself is C12's business, so
+    # make sure it follows ground truth before blaming the velocity code (the jump can break C12's premises later on)
+    for k in range(n - 1):
+        for j in js:
+            if vanished is not None and j == vanished and k == 0:
+                continue
+            if mesh.mapping[k].get(S.vid(k, j)) != S.vid(k + 1, j):
+                ctx.skip("tracking did not follow ground truth (C12's premises not met after the jump)")
+                return
     vmax = 0.0
     exp_v = {}
     for t in range(n):
